@@ -5,6 +5,7 @@ package main
 
 import (
 	"bytes"
+	"errors"
 	"fmt"
 	"strings"
 
@@ -213,6 +214,118 @@ func main() {
 			return ""
 		}
 
+		// ------------------------------------------------ a destination that fails, and a caller that carries on
+		c.Part("faulted-destination")
+		c.Bound("Encrypt to X0 under a tape, then every caller script of 1..4 operations over {Write 1 byte, Write ChunkSize bytes, Close} (errors ignored, so repeated operations are retries) x the destination failing at payload write call 0..5 (once, or from then on; refusing all or taking half) : every buffer handed to the destination must open under exactly one (counter, final) nonce of the payload key and no nonce may carry two different plaintexts")
+		{
+			tpName := fmt.Sprintf("faulted-%d", c.Seed)
+			tp := tape.New(tpName)
+			tape.Install(tp)
+			healthy := &recWriter{failAt: -1}
+			_, herr := age.Encrypt(healthy, keys.X(0).Rcpt)
+			tape.Restore()
+			var pkey []byte
+			if herr == nil {
+				h, rest, err := refage.ParseHeader(healthy.all())
+				if err == nil && len(rest) == 16 && len(h.Stanzas) == 1 {
+					if fk, err := keys.X(0).Ref(h.Stanzas[0]); err == nil {
+						pkey = refage.PayloadKey(fk, rest[:16])
+					}
+				}
+			}
+			if pkey == nil {
+				c.Fail("encrypt-failed", "faulted-destination", "cannot establish the payload key of the healthy run", nil)
+			} else {
+				k0 := len(healthy.bufs)
+				opNames := []string{"Write(1)", "Write(C)", "Close"}
+				var scripts [][]int
+				var gen func(cur []int)
+				gen = func(cur []int) {
+					if len(cur) > 0 {
+						scripts = append(scripts, append([]int{}, cur...))
+					}
+					if len(cur) == 4 {
+						return
+					}
+					for o := 0; o < 3; o++ {
+						gen(append(cur, o))
+					}
+				}
+				gen(nil)
+				for si, sc := range scripts {
+					if !c.MineKey(si) {
+						continue
+					}
+					for k := 0; k <= 5; k++ {
+						for mode := 0; mode < 4; mode++ {
+							id := fmt.Sprintf("fd.%v.k%d.m%d", sc, k, mode)
+							if c.Replaying() && !c.Want(id) {
+								continue
+							}
+							c.Eval(1)
+							c.DistinctOnce(ev.HashStr(id))
+							rw := &recWriter{failAt: k0 + k, forever: mode&1 == 1, partial: mode&2 == 2}
+							tp := tape.New(tpName)
+							tape.Install(tp)
+							w, err := age.Encrypt(rw, keys.X(0).Rcpt)
+							tape.Restore()
+							if err != nil || !bytes.Equal(bytes.Join(rw.bufs, nil), healthy.all()) {
+								c.Fail("encrypt-failed", id, "header of the faulted run differs from the healthy run under the same tape", nil)
+								continue
+							}
+							var plainSoFar []byte
+							var desc []string
+							for oi, o := range sc {
+								var err error
+								switch o {
+								case 0:
+									d := []byte{byte('a' + oi)}
+									plainSoFar = append(plainSoFar, d...)
+									_, err = w.Write(d)
+								case 1:
+									d := lab.Plain(C, int64(oi+1))
+									plainSoFar = append(plainSoFar, d...)
+									_, err = w.Write(d)
+								case 2:
+									err = w.Close()
+								}
+								desc = append(desc, fmt.Sprintf("%s -> %v", opNames[o], err))
+							}
+							det := map[string]interface{}{"script": desc, "destination_fails_at_payload_write": k, "fails_forever": rw.forever, "takes_half": rw.partial}
+							seen := map[string][]byte{}
+							for bi, b := range rw.bufs[k0:] {
+								opened := 0
+								for ctr := uint64(0); ctr <= 6; ctr++ {
+									for _, fl := range []bool{false, true} {
+										if pt, ok := refage.OpenChunk(pkey, ctr, fl, b); ok {
+											opened++
+											key := fmt.Sprintf("%d/%v", ctr, fl)
+											if prev, dup := seen[key]; dup && !bytes.Equal(prev, pt) {
+												c.Fail("key-nonce-pair-reused", id, fmt.Sprintf("two different plaintexts were sealed under the payload key and nonce (counter=%d, final=%v)", ctr, fl), det)
+											}
+											seen[key] = pt
+										}
+									}
+								}
+								if opened != 1 {
+									msg := fmt.Sprintf("buffer %d handed to the destination (%d bytes) opens under %d of the counter nonces", bi, len(b), opened)
+									n := len(b) - 32
+									if n > 0 && bytes.Contains(plainSoFar, b[:n]) {
+										msg += "; it begins with plaintext in the clear: the chunk was sealed twice under the same key and nonce"
+									}
+									c.Fail("key-nonce-pair-reused/not-a-chunk", id, msg, det)
+									break
+								}
+							}
+							if c.WantSample() && k == 1 && len(sc) == 3 {
+								c.Sample(det)
+							}
+						}
+					}
+				}
+			}
+		}
+
 		c.Part("histories")
 		c.Bound("all histories of 1..%d Encrypt calls over %d recipient lists (incl. the same recipient value twice or thrice in one call and across calls) x %d plaintexts; each under tape seeds A and B and under seed A with every plaintext changed; ChunkSize=%d", histLen, len(lists), len(plains), C)
 		ncalls := len(lists) * len(plains)
@@ -308,3 +421,28 @@ func main() {
 		rec(nil)
 	})
 }
+
+// recWriter records every buffer handed to it; the call with index failAt (and, with forever, every later one)
+// fails, taking nothing or (partial) half of the buffer.
+type recWriter struct {
+	bufs    [][]byte
+	failAt  int
+	forever bool
+	partial bool
+}
+
+func (w *recWriter) all() []byte { return bytes.Join(w.bufs, nil) }
+
+func (w *recWriter) Write(p []byte) (int, error) {
+	i := len(w.bufs)
+	w.bufs = append(w.bufs, append([]byte{}, p...))
+	if w.failAt >= 0 && (i == w.failAt || (w.forever && i > w.failAt)) {
+		if w.partial {
+			return len(p) / 2, errInjected
+		}
+		return 0, errInjected
+	}
+	return len(p), nil
+}
+
+var errInjected = errors.New("injected destination failure")
